@@ -197,6 +197,10 @@ def run(chk, binary):
             # no --else branch: when no line matches nothing is cut - and a scope that asks for fields never falls back to
             # printing the buffer, wherever in it (inside a repeat too) the cuts stand
             argv = ["--json", "-g", pat, "-c", "name=hit", cut1, "-m", "w"] + (["-r", "2", "1"] if rep else []) + ["--end"]
+        if not noelse and rng.random() < 0.3:
+            # numbered cuts in a scope, no -n: one record, its keys 1..m for the m lines the scope visits
+            pat = rng.choice(["o", "a", "e", "[a-z]"])
+            argv = ["--json", "-g", pat, "-c", rng.choice(["e", "$", "w"]), "--end"]
         cjobs.append({"args": argv, "stdin": text})
         cmeta.append((argv, text, pat, bool(rep)))
     for (argv, text, pat, rep), (rc, out, err) in zip(cmeta, cli_map(binary, cjobs)):
@@ -213,6 +217,11 @@ def run(chk, binary):
             lines.pop()
         hit = any(_re.search(pat, l) for l in lines)
         want = "hit" if hit else "miss"
+        if "name=hit" not in argv:
+            m_ = sum(1 for l in lines if _re.search(pat, l))
+            if m_ >= 1 and (len(recs) != 1 or not isinstance(recs[0], dict) or sorted(recs[0], key=int) != [str(i_ + 1) for i_ in range(m_)]):
+                chk.violation("spec:field keys are not 1..k / the given names", {"argv": argv, "stdin": text, "matching_lines": m_, "records": recs})
+            continue
         if "--else" not in argv and not hit:
             if recs:
                 chk.violation("spec:a scope that cuts fields matched no line, yet records were printed", {"argv": argv, "stdin": text, "stdout": out.decode(errors="replace")[:300]})
@@ -248,6 +257,26 @@ def run(chk, binary):
         if missing:
             chk.violation("spec:a file has no section in the listing of a multi-file run", {"argv": ob["argv"], "missing": missing,
                           "files": [(a, b.decode(errors="replace")) for a, b in sc["files"]], "stdout": so[:400]})
+    # a field name used twice in a record: the listing of several files says what each file's own document says
+    pjobs = []
+    for _ in range(24 if thorough else 6):
+        files = [(nm, rng.choice(["alpha beta\n", "gamma delta x\n", "one two\nthree four\n"]).encode()) for nm in rng.sample(D.FILE_NAMES, 2)]
+        cmds = ["-c", "name=w", "e", "-m", "w", "-c", "name=w", "e"]
+        pjobs.append({"files": files, "opts": ["--json"], "cmds": cmds, "stdin": None})
+        for nm, data in files:
+            pjobs.append({"files": [(nm, data)], "opts": ["--json"], "cmds": cmds, "stdin": None})
+    pobs = D.scenarios_map(binary, pjobs)
+    for k_ in range(0, len(pjobs), 3):
+        lst, one_a, one_b = pobs[k_], pobs[k_ + 1], pobs[k_ + 2]
+        chk.count(("json-listing-vs-documents", tuple(lst["argv"])), nontrivial=True)
+        try:
+            L_ = json.loads(lst["out"].decode("utf-8"))
+            docs = [json.loads(o_["out"].decode("utf-8")) for o_ in (one_a, one_b)]
+        except Exception:
+            continue
+        got = [e_.get("__content__") for e_ in L_] if isinstance(L_, list) else None
+        if got != docs:
+            chk.violation("spec:the JSON listing of several files differs from the files' own documents", {"argv": lst["argv"], "listing": got, "documents": docs})
     for sc, ob in zip(djobs, D.scenarios_map(binary, djobs)):
         chk.count(("json-files", tuple(ob["argv"])), nontrivial=True)
         if ob["rc"] != 0:
